@@ -23,24 +23,10 @@ func c16Run(fs *Facts) {
 		fs.Tri("destroyRechecksAfterDrain", Unknown, swampPath)
 		fs.Tri("listenerReadsTouchUnderLock", Unknown, swampPath)
 	} else {
-		// Destroy
-		if d := sw.Func("swamp", "Destroy"); d == nil {
-			fs.Tri("destroyRechecksAfterDrain", Unknown, swampPath)
-		} else {
-			waits := sw.CallsSuffix(d, ".WaitForActiveVigilsClosed")
-			dels := sw.CallsSuffix(d, ".chroniclerInterface.Destroy")
-			if len(waits) != 1 || len(dels) != 1 {
-				fs.Tri("destroyRechecksAfterDrain", Unknown, swampPath+":"+itoa(sw.Line(d)))
-			} else {
-				res, where := No, swampPath+":"+itoa(sw.Line(waits[0]))
-				for _, c := range append(sw.CallsSuffix(d, ".beaconKey.Count"), sw.CallsSuffix(d, ".CountTreasures")...) {
-					if c.Pos() > waits[0].End() && c.Pos() < dels[0].Pos() {
-						res, where = Yes, swampPath+":"+itoa(sw.Line(c))
-					}
-				}
-				fs.Tri("destroyRechecksAfterDrain", res, where)
-			}
-		}
+		// Destroy: the body that drains and deletes is either Destroy itself or the helper destroy(onlyIfEmpty)
+		// that Destroy / destroyIfEmpty call; the fact is about the AUTO-destroy after the last delete, so every
+		// method that destroys the swamp on its own (after looking at the count) must go through the re-checking entry.
+		fs.Tri(c16DestroyFact(sw, swampPath))
 		// listener
 		if l := sw.Func("swamp", "startCloseListener"); l == nil {
 			fs.Tri("listenerReadsTouchUnderLock", Unknown, swampPath)
@@ -69,7 +55,7 @@ func c16Run(fs *Facts) {
 	}
 	// delete marker bookkeeping
 	if sw != nil {
-		save, dh := sw.Func("swamp", "SaveFunction"), sw.Func("swamp", "deleteHandler")
+		save, dh := sw.Func("swamp", "SaveFunction"), sw.Func("swamp", ccDeleteHandlerName(sw))
 		if save == nil || dh == nil {
 			fs.Tri("recreateDropsDeleteMarker", Unknown, swampPath)
 		} else {
@@ -82,7 +68,24 @@ func c16Run(fs *Facts) {
 				}
 				return true
 			})
-			fs.Tri("recreateDropsDeleteMarker", TriOf(drops && skips), swampPath+":"+itoa(sw.Line(dh)))
+			// repaired form: before the marker is dropped the re-created record inherits the file pointer of the
+			// pending (deleted) object, so a later delete still reaches the file
+			inherits := false
+			for _, d := range sw.Calls(save, "s.treasuresWaitingForWriter.Delete") {
+				ast.Inspect(save, func(x ast.Node) bool {
+					ifs, ok := x.(*ast.IfStmt)
+					if !ok || ifs.End() > d.Pos() {
+						return true
+					}
+					if ifs.Init != nil && strings.Contains(sw.Str(ifs.Init), "treasuresWaitingForWriter.Get") &&
+						strings.Contains(sw.Str(ifs.Cond), "GetFileName() != nil") &&
+						len(sw.CallsSuffix(ifs.Body, ".BodySetFileName")) > 0 {
+						inherits = true
+					}
+					return true
+				})
+			}
+			fs.Tri("recreateDropsDeleteMarker", TriOf(drops && skips && !inherits), swampPath+":"+itoa(sw.Line(dh)))
 		}
 	} else {
 		fs.Tri("recreateDropsDeleteMarker", Unknown, swampPath)
@@ -91,7 +94,87 @@ func c16Run(fs *Facts) {
 	if err != nil {
 		fs.Err("%v", err)
 		fs.Tri("summonTakesVigil", Unknown, hydraPath)
+		fs.Tri("summonWaitsForUnmap", Unknown, hydraPath)
+		fs.Tri("stopWaitsUntilClosed", Unknown, hydraPath)
 		return
+	}
+	// summonWaitsForUnmap: the branch that waits for a closing instance ends with `continue` (back to the map lookup)
+	if sm := hy.Func("hydra", "SummonSwamp"); sm == nil {
+		fs.Tri("summonWaitsForUnmap", Unknown, hydraPath)
+	} else {
+		res, where := Unknown, hydraPath+":"+itoa(hy.Line(sm))
+		ast.Inspect(sm, func(x ast.Node) bool {
+			ifs, ok := x.(*ast.IfStmt)
+			if !ok || !strings.Contains(hy.Str(ifs.Cond), ".IsClosing()") || len(hy.CallsSuffix(ifs.Body, ".WaitForGracefulClose")) == 0 {
+				return true
+			}
+			where = hydraPath + ":" + itoa(hy.Line(ifs))
+			res = No
+			if n := len(ifs.Body.List); n > 0 {
+				if br, ok := ifs.Body.List[n-1].(*ast.BranchStmt); ok && br.Tok.String() == "continue" {
+					res = Yes
+				}
+			}
+			return true
+		})
+		fs.Tri("summonWaitsForUnmap", res, where)
+	}
+	// stopWaitsUntilClosed: every return inside GracefulStop's wait loop is guarded by `<count> == 0`, or follows the
+	// forced close and its 30 s wait
+	if gs := hy.Func("hydra", "GracefulStop"); gs == nil {
+		fs.Tri("stopWaitsUntilClosed", Unknown, hydraPath)
+	} else {
+		res, where := Unknown, hydraPath+":"+itoa(hy.Line(gs))
+		var loop *ast.ForStmt
+		for _, stt := range gs.Body.List {
+			if fl, ok := stt.(*ast.ForStmt); ok {
+				loop = fl
+			}
+		}
+		if loop != nil && loop.Cond == nil {
+			res = Yes
+			var visit func(n ast.Node, guarded bool)
+			visit = func(n ast.Node, guarded bool) {
+				switch x := n.(type) {
+				case *ast.FuncLit:
+					return
+				case *ast.IfStmt:
+					cond := hy.Str(x.Cond)
+					g := guarded || (strings.Contains(cond, "== 0") && (strings.Contains(cond, "openedSwamps") || strings.Contains(cond, "CountActiveSwamps")))
+					forced := false
+					for _, st := range x.Body.List {
+						if es, ok := st.(*ast.ExprStmt); ok && strings.Contains(hy.Str(es.X), "time.Sleep(30") {
+							forced = true
+						}
+						if _, ok := st.(*ast.ReturnStmt); ok && !(g || forced) {
+							res, where = No, hydraPath+":"+itoa(hy.Line(st))
+						}
+						if _, ok := st.(*ast.ReturnStmt); !ok {
+							visit(st, g)
+						}
+					}
+					if x.Else != nil {
+						visit(x.Else, guarded)
+					}
+					return
+				case *ast.BlockStmt:
+					for _, st := range x.List {
+						if _, ok := st.(*ast.ReturnStmt); ok && !guarded {
+							res, where = No, hydraPath+":"+itoa(hy.Line(st))
+						} else {
+							visit(st, guarded)
+						}
+					}
+					return
+				case *ast.BranchStmt:
+					if x.Tok.String() == "break" && !guarded {
+						res, where = No, hydraPath+":"+itoa(hy.Line(x))
+					}
+				}
+			}
+			visit(loop.Body, false)
+		}
+		fs.Tri("stopWaitsUntilClosed", res, where)
 	}
 	if s := hy.Func("hydra", "SummonSwamp"); s == nil {
 		fs.Tri("summonTakesVigil", Unknown, hydraPath)
@@ -100,4 +183,93 @@ func c16Run(fs *Facts) {
 	} else {
 		fs.Tri("summonTakesVigil", No, hydraPath+":"+itoa(hy.Line(s)))
 	}
+}
+
+// c16DestroyFact decides destroyRechecksAfterDrain.
+func c16DestroyFact(sw *File, swampPath string) (string, Tri, string) {
+	const name = "destroyRechecksAfterDrain"
+	var body *ast.FuncDecl
+	for _, n := range []string{"destroy", "Destroy"} {
+		if d := sw.Func("swamp", n); d != nil && len(sw.CallsSuffix(d, ".chroniclerInterface.Destroy")) > 0 {
+			body = d
+			break
+		}
+	}
+	if body == nil {
+		return name, Unknown, swampPath
+	}
+	waits := sw.CallsSuffix(body, ".WaitForActiveVigilsClosed")
+	dels := sw.CallsSuffix(body, ".chroniclerInterface.Destroy")
+	if len(waits) != 1 || len(dels) != 1 {
+		return name, Unknown, swampPath + ":" + itoa(sw.Line(body))
+	}
+	// an if between the drain and the file removal that looks at the count and returns
+	var check *ast.IfStmt
+	ast.Inspect(body, func(x ast.Node) bool {
+		ifs, ok := x.(*ast.IfStmt)
+		if !ok || ifs.Pos() < waits[0].End() || ifs.End() > dels[0].Pos() {
+			return true
+		}
+		cond := sw.Str(ifs.Cond)
+		if !(strings.Contains(cond, "beaconKey.Count()") || strings.Contains(cond, "CountTreasures()")) {
+			return true
+		}
+		if n := len(ifs.Body.List); n > 0 {
+			if _, ok := ifs.Body.List[n-1].(*ast.ReturnStmt); ok {
+				check = ifs
+			}
+		}
+		return true
+	})
+	if check == nil {
+		return name, No, swampPath + ":" + itoa(sw.Line(waits[0]))
+	}
+	where := swampPath + ":" + itoa(sw.Line(check))
+	// the non-empty branch must still flush: it has to call the close body
+	if len(sw.Calls(check.Body, "s.closeClosing", "s.Close")) == 0 {
+		return name, Unknown, where
+	}
+	guardParam := ""
+	if body.Name.Name == "destroy" && body.Type.Params != nil && len(body.Type.Params.List) == 1 && len(body.Type.Params.List[0].Names) == 1 {
+		guardParam = body.Type.Params.List[0].Names[0].Name
+	}
+	if guardParam == "" || !strings.Contains(sw.Str(check.Cond), guardParam) {
+		// unconditional re-check in the one body
+		if body.Name.Name == "Destroy" {
+			return name, Yes, where
+		}
+		return name, Unknown, where
+	}
+	// conditional on the parameter: find the entry that passes true, and require that every other method that
+	// destroys the swamp by itself uses that entry
+	entry := ""
+	for _, d := range sw.AST.Decls {
+		fd, ok := d.(*ast.FuncDecl)
+		if !ok || fd.Body == nil || fd.Recv == nil || fd == body {
+			continue
+		}
+		for _, c := range sw.Calls(fd, "s.destroy") {
+			if len(c.Args) == 1 && sw.Str(c.Args[0]) == "true" && len(fd.Body.List) == 1 {
+				entry = fd.Name.Name
+			}
+		}
+	}
+	if entry == "" {
+		return name, No, where
+	}
+	sites := 0
+	for _, d := range sw.AST.Decls {
+		fd, ok := d.(*ast.FuncDecl)
+		if !ok || fd.Body == nil || fd.Recv == nil || fd == body || fd.Name.Name == entry || fd.Name.Name == "Destroy" {
+			continue
+		}
+		if bad := sw.Calls(fd, "s.Destroy", "s.destroy"); len(bad) > 0 {
+			return name, No, swampPath + ":" + itoa(sw.Line(bad[0]))
+		}
+		sites += len(sw.Calls(fd, "s."+entry))
+	}
+	if sites == 0 {
+		return name, Unknown, where
+	}
+	return name, Yes, where
 }
